@@ -445,6 +445,9 @@ def matches_finding(w, f):
         if not spec.get('telecentric') or kinds != {'telecentric-numerical-aperture'}:
             return False
         return all(abs(b.get('object_index', 1.0) - 1.0) > 1e-9 for b in w['oracle'])
+    if f['id'] == 'objectNA-infinite-object-not-rejected':
+        return (math.isinf(spec['object_thickness']) and spec['aperture'][0] == 'objectNA'
+                and kinds == {'objectNA-infinite-object-not-rejected'})
     return False
 
 
@@ -464,6 +467,14 @@ TELE_NA_REPLAY = {
     'wavelengths': [[0.55, True]], 'telecentric': True}
 
 
+NA_INF_REPLAY = {
+    'object_thickness': float('inf'),
+    'surfaces': [{'type': 'standard', 'radius': 50.0, 'thickness': 5.0, 'material': ['ideal', 1.5168, 0.0], 'is_stop': True},
+                 {'type': 'standard', 'radius': -50.0, 'thickness': 45.0, 'material': 'air'}],
+    'aperture': ['objectNA', 0.1], 'field_type': 'angle', 'fields': [[0.0, 0.0, 0.0, 0.0], [5.0, 0.0, 0.0, 0.0]],
+    'wavelengths': [[0.55, True]], 'telecentric': False}
+
+
 def replay_finding(ctx, f):
     import warnings
     import c03lib
@@ -472,6 +483,8 @@ def replay_finding(ctx, f):
         spec, ray = BACKWARDS_REPLAY, (0.0, 1.0, 0.0, 0.5, 0.55)
     elif f['id'] == 'telecentric-na-ignores-object-index':
         spec, ray = TELE_NA_REPLAY, (0.0, 1.0, 0.0, 1.0, 0.55)
+    elif f['id'] == 'objectNA-infinite-object-not-rejected':
+        spec, ray = NA_INF_REPLAY, (0.0, 1.0, 0.0, 0.5, 0.55)
     else:
         return None
     o = c03lib.build(spec)
